@@ -1269,6 +1269,15 @@ func matchCallee(st *Structural, f *ssa.Function, cc *ssa.CallCommon) bool {
 	if f == nil {
 		return false
 	}
+	// a method VALUE (c.m handed on as a function) or method expression reaches the method through a synthetic wrapper
+	// ("(*T).m$bound", "(*T).m$thunk"): the wrapper stands for the method it wraps
+	if f.Synthetic != "" && (strings.HasSuffix(f.Name(), "$bound") || strings.HasSuffix(f.Name(), "$thunk")) {
+		if obj, ok := f.Object().(*types.Func); ok && f.Prog != nil {
+			if m := f.Prog.FuncValue(obj); m != nil {
+				f = m
+			}
+		}
+	}
 	if strings.HasPrefix(t, "lib.") {
 		// one library function or method, named as go/ssa prints it: lib.(*path/to/pkg.T).M or lib.path/to/pkg.F
 		return !inModule(f) && "lib."+f.String() == t
